@@ -37,9 +37,8 @@ mutual
     | .mk _ ps ds b => .mk (ofParams ps) (ofDecls ds) (ofExpr b)
 end
 
-/-! ### the function-free fragment: no function declarations, no lambdas, no computed callees, and of the natives
-the strict ones and `display` (the short-circuiting `if`/`and`/`or`/`if_error`/`is_error` are left out) -/
-def lazyNatives : List String := ["if", "and", "or", "if_error", "is_error"]
+/-! ### the function-free fragment: no function declarations, no lambdas, no computed callees; all natives of the
+core fragment (the strict ones, `display`, and the short-circuiting `if`/`and`/`or`/`if_error`/`is_error`) -/
 
 mutual
   def exprOK : Core.Expr → Bool
@@ -47,7 +46,7 @@ mutual
     | .bool _ => true
     | .str _ => true
     | .var _ => true
-    | .call f args => !(lazyNatives.contains f) && exprsOK args
+    | .call _ args => exprsOK args
     | .callE _ _ => false
     | .lam _ => false
     | .tup es => exprsOK es
@@ -122,8 +121,7 @@ theorem parse_frag : ∀ (fuel : Nat),
       | callE f args => simp [exprOK] at hok
       | lam f => simp [exprOK] at hok
       | call f args =>
-        simp only [exprOK, Bool.and_eq_true] at hok
-        replace hok := hok.2
+        simp only [exprOK] at hok
         simp only [ofExpr, parseExpr] at h
         cases n with
         | zero => simp [parseExpr] at h
@@ -225,8 +223,7 @@ theorem compile_frag : ∀ (fuel : Nat),
       | callE f args => simp [exprOK] at hok
       | lam f => simp [exprOK] at hok
       | call f args =>
-        simp only [exprOK, Bool.and_eq_true] at hok
-        replace hok := hok.2
+        simp only [exprOK] at hok
         simp only [px, compileExpr] at h
         split at h
         · cases h
